@@ -148,7 +148,13 @@ def gen_job(rng):
     switches = rng.choice([[], [], [], [], ['-O'], ['-OO'], ['-B'], ['-O', '-B'], ['-s'], ['-W', 'error'], ['-X', 'dev'],
                            ['-W', 'default'], ['-W', 'error', '-O']])
     r0 = rng.random()
-    if r0 < 0.10:
+    if r0 < 0.05:
+        # deeply (but comfortably below the interpreter's own limit: ~326 levels) nested selector lists: whatever the
+        # library decides about nesting depth, it has to decide the same in every configuration
+        d = rng.randrange(200, 262, 2)
+        probe = {'markup': '<div><p id="a">x</p><p id="b">y</p></div>', 'selector': ':is(' * d + 'p' + ')' * d}
+        parser = 'html.parser'
+    elif r0 < 0.10:
         probe = {'markup': rng.choice(PROBE_STRINGS), 'selector': rng.choice(STRING_SELECTORS)}
         parser = rng.choice(['html.parser', 'html.parser'] + [p for p in ('lxml', 'html5lib') if p not in blocked])
     elif r0 < 0.20:
